@@ -78,6 +78,16 @@ void Precedence::bvisit(const Integer &x)
     }
 }
 
+void Precedence::bvisit(const Infty &x)
+{
+    // -oo is printed with a leading minus sign, like a negative number
+    if (x.is_negative_infinity()) {
+        precedence = PrecedenceEnum::Mul;
+    } else {
+        precedence = PrecedenceEnum::Atom;
+    }
+}
+
 void Precedence::bvisit(const RealDouble &x)
 {
     if (x.is_negative()) {
